@@ -199,6 +199,7 @@ func c11Run(e *Env, p *c11Plan) {
 		}}
 	k := NewServerKit(e, s)
 	k.SkipBody = true
+	k.SkipHeaders = true
 	var mu sync.Mutex
 	dispatched := map[string]int{}
 	k.Handle = func(ctx *fasthttp.RequestCtx, inv *Inv) {
@@ -377,7 +378,10 @@ func c11Run(e *Env, p *c11Plan) {
 		ctx.Request.Header.SetUserAgent("leak-ua-" + id)
 		ctx.QueryArgs().Add("leakq", id)
 		ctx.PostArgs().Add("leakp", id)
-		ctx.Request.SetBodyString("leak-body-" + id)
+		if !strings.HasSuffix(id, "0") && !strings.HasSuffix(id, "2") {
+			// (SetBody* removes a parsed multipart form by itself: leave it alone for a part of the requests)
+			ctx.Request.SetBodyString("leak-body-" + id)
+		}
 		ctx.Request.Header.SetContentType("x/leak-req")
 		switch r.Kind {
 		case "timeout":
